@@ -38,6 +38,11 @@ def main():
         broken.append("translator: tools/gen.py failed on /repo's current source: " + binfo["log"][-400:])
     if not proof["ok"]:
         broken.append("theorems of Properties/%s.v no longer check: %s" % (pid, proof["log"][-600:]))
+    chk = None
+    if tier == "thorough" and proof["ok"]:
+        chk = C.coqchk(pid)
+        if not chk["ok"]:
+            broken.append("coqchk rejects Properties/%s: %s %s" % (pid, chk["flags"], chk["tail"]))
     if hyg:
         broken.append("hygiene: forbidden keyword in development: " + "; ".join(hyg[:3]))
     need = getattr(mod, "DRIVERS", ["driver"])
@@ -111,6 +116,9 @@ def main():
         "distribution": res.dist, "known_findings_hit": known_hits,
         "broken_obligations": broken, "build": {k: binfo[k] for k in ("gen_ok", "make_ok", "ocaml_ok", "build_s")},
     }
+    if chk is not None:
+        cov["coqchk"] = {"ok": chk["ok"], "axioms": chk["axioms"]}
+        cov["trusted_base"].append("coqchk -o (independent checker) accepted the property file and its dependencies; axioms it lists: %s" % (chk["axioms"] or "none"))
     cov.update(res.extra)
     C.write_evidence(pid, tier, seed, level, cov, getattr(mod, "ASSUMPTIONS", []), time.time() - t0,
                      len(new_viol) + (1 if rc and not new_viol else 0))
